@@ -118,11 +118,20 @@ pub fn gen_literal(rng: &mut Rng, i: u64) -> (Vec<u8>, &'static str) {
             let e = rng.range(0, 160) as i32 - 110;
             let mid = exact_decimal(2 * m + 1, e - 1);
             let mut s = mid.clone();
-            match rng.below(3) { 0 => {}, 1 => s.push_str(if s.contains('.') { "0000000000000000000001" } else { ".0000000000000000000001" }), _ => { // just below: decrement the last digit (it is 5 or non-zero)
+            match rng.below(4) { 0 => {},
+                3 => { // the tie (or the tie plus one unit in a far-away place) written with more significant digits than any fixed-size digit buffer holds
+                    if !s.contains('.') { s.push('.'); }
+                    let sig = s.bytes().filter(|b| b.is_ascii_digit()).count();
+                    let target = *rng.pick(&[760usize, 767, 768, 769, 770, 800, 1100]);
+                    if target > sig { s.push_str(&"0".repeat(target - sig)); }
+                    if rng.chance(1, 2) { s.push('1'); } },
+                1 => s.push_str(if s.contains('.') { "0000000000000000000001" } else { ".0000000000000000000001" }), _ => { // just below: decrement the last digit (it is 5 or non-zero)
                 let mut b = s.into_bytes(); let mut k = b.len() - 1; loop { if b[k] == b'.' { k -= 1; continue; } if b[k] > b'0' { b[k] -= 1; break; } b[k] = b'9'; k -= 1; } s = String::from_utf8(b).unwrap(); s.push_str("9999999999"); if !s.contains('.') { let n = s.len() - 10; s.insert(n, '.'); } } }
             (s.into_bytes(), "halfway") }
         5 => { let base = *rng.pick(&["18446744073709551615", "18446744073709551616", "9223372036854775807", "9223372036854775808", "9223372036854775809", "10000000000000000000", "99999999999999999999", "340282366920938463463374607431768211455", "340282366920938463463374607431768211456", "170141183460469231731687303715884105727", "170141183460469231731687303715884105728", "170141183460469231731687303715884105729", "255", "256", "127", "128", "129", "65535", "65536", "32767", "32768", "4294967295", "4294967296", "2147483647", "2147483648", "0", "1"]);
                (format!("{}{}", if rng.chance(1, 2) { "-" } else { "" }, base).into_bytes(), "intbound") }
+        6 if rng.chance(1, 3) => { // zero integer part, zeros right after the point, then more digits than fit the fast paths
+            let z = rng.below(26); let n = rng.range(15, 45); let mut s = format!("0.{}{}", "0".repeat(z), digs(rng, n)); if rng.chance(1, 3) { s.push_str(&format!("e{}", rng.range(0, 60) as i64 - 30)); } (s.into_bytes(), "smallfraction") }
         6 => { // 16-digit fraction reader at every alignment: int digits x fraction digits
             let (a, b) = (rng.range(1, 5), rng.range(1, 40)); let mut s = format!("{}.{}", digs(rng, a), digs(rng, b)); if rng.chance(1, 3) { s.push_str(&format!("E{}", rng.range(0, 40) as i64 - 20)); } (s.into_bytes(), "fraction") }
         7 => { let z = rng.range(1, 400); let s = match rng.below(4) { 0 => format!("0.{}1e{}", "0".repeat(z), z), 1 => format!("1{}e-{}", "0".repeat(z), z), 2 => format!("1e{}{}", "0".repeat(z % 30), rng.below(400)), _ => format!("{}e99999999999999999999", rng.below(10)) }; (s.into_bytes(), "padded") }
